@@ -39,3 +39,40 @@ func TestC17Dump(t *testing.T) {
 		}
 	}
 }
+
+// TestC17Repeat is a development aid: VERIF_C17_CASE=<case> VERIF_C17_PERM=1,2,0,3 VERIF_C17_CONST=<index> builds
+// the same combination several times in this process and reports sections whose bytes vary.
+func TestC17Repeat(t *testing.T) {
+	name := os.Getenv("VERIF_C17_CASE")
+	if name == "" {
+		t.Skip("VERIF_C17_CASE not set")
+	}
+	for _, c := range allCases() {
+		if c.Name != name {
+			continue
+		}
+		var perm []int
+		for _, f := range strings.Split(os.Getenv("VERIF_C17_PERM"), ",") {
+			var i int
+			fmt.Sscan(f, &i)
+			perm = append(perm, i)
+		}
+		var ci int
+		fmt.Sscan(os.Getenv("VERIF_C17_CONST"), &ci)
+		cb := comboT{Perm: perm, Const: mapAlphabet[ci]}
+		var first *observation
+		for k := 0; k < 6; k++ {
+			o, err := observe(c, len(perm), cb, all(len(perm)))
+			if err != nil {
+				t.Fatal(err)
+			}
+			if first == nil {
+				first = o
+			}
+			fmt.Printf("run %d digest %s\n", k, o.digest())
+			for _, d := range append(compare(c.Family, o, o), compare(c.Family, first, o)...) {
+				fmt.Printf("   %s :: %s\n", d.Key, d.Desc)
+			}
+		}
+	}
+}
